@@ -21,6 +21,8 @@ Nodes
 
 from __future__ import annotations
 
+import re
+
 import math
 from typing import Any, List, Tuple
 
@@ -73,6 +75,8 @@ def _needs_recv_parens(n: Tuple) -> bool:
 
 
 def _recv_gap(n: Tuple) -> str:
+    if n[0] == "raw" and re.fullmatch(r"-?\d+", n[1]):
+        return " "  # verbatim integer text (from a parsed tree): the only spelling that parses is the one with a blank
     return " " if n[0] == "lit" and n[1] == "int" and isinstance(n[2], int) and n[2] % 2 == 0 else ""
 
 
@@ -99,6 +103,8 @@ def render(n: Tuple, mode: str = "min") -> str:
     if t == "un":
         a = n[2]
         s = wrap(a, level(a) < UNARY)
+        if n[1] == "-" and s[:1].isdigit() and a[0] not in ("lit", "raw"):
+            s = f"({s})"  # '-4 .f' would be read as the literal -4 followed by .f
         # '--x' / '- -1': keep a unary minus apart from a following '-' (literal sign or another unary minus)
         sep = " " if (n[1] == "-" and s.startswith("-")) else ""
         return f"{n[1]}{sep}{s}"
